@@ -26,6 +26,14 @@ class Inconclusive(BaseException):
     """Solver returned unknown / model could not be interpreted."""
 
 
+class StopExploration(BaseException):
+    """Enough counterexamples were collected for this configuration."""
+
+
+class TooLarge(Exception):
+    """A model is too large to be materialised for a replay on the real stack."""
+
+
 _ENG = None
 
 
@@ -60,6 +68,10 @@ class Engine(object):
         self.case_builder = None
         self.known = []        # list of z3 predicates builder callables (known findings)
         self.path_forked = False
+        self.prefer = []       # soft constraints used to pick small models for replay
+        self.deadline = None
+        self.bound_exceeded = []
+        self.max_cex = 4
 
     # -- exploration ---------------------------------------------------------
     def explore(self, fn, deadline=None):
@@ -69,6 +81,8 @@ class Engine(object):
         _ENG = self
         self.worklist = [([], None)]
         completed = 0
+        if deadline is not None:
+            self.deadline = deadline
         try:
             while self.worklist:
                 if self.stats.get('paths', 0) >= self.max_paths:
@@ -86,6 +100,13 @@ class Engine(object):
                         self.stats.inc('paths_nontrivial')
                 except PathAbort:
                     self.stats.inc('paths_aborted')
+                except BoundExceeded as ex:
+                    if self.deadline is not None and time.time() > self.deadline:
+                        raise
+                    self.stats.inc('paths_bound_exceeded')
+                    self.bound_exceeded.append(str(ex))
+        except StopExploration:
+            self.stats.inc('stopped_after_cex')
         finally:
             _ENG = prev
         return completed
@@ -101,10 +122,13 @@ class Engine(object):
         self.inputs = []
         self.path_forked = len(prefix) > 0
         self.path_notes = {}
+        self.prefer = []
 
     # -- solver helpers ------------------------------------------------------
     def _check(self, *assumptions):
         t = time.time()
+        if self.deadline is not None and t > self.deadline:
+            raise BoundExceeded('time budget of the configuration exhausted')
         r = self.solver.check(*assumptions)
         self.stats.inc('solver_s', time.time() - t)
         self.stats.inc('queries')
@@ -252,14 +276,34 @@ class Engine(object):
         if not self._check(neg):
             self.stats.inc('discharged')
             return True
-        m = self.solver.model()
+        m = self._small_model(neg)
         self._record_cex(m, label, case)
         raise PathAbort()
+
+    def _small_model(self, *extra):
+        """A model of the path condition (+extra), preferring the soft constraints."""
+        m = self.solver.model()
+        pref = [_bool_term(p) for p in self.prefer]
+        if pref:
+            try:
+                if self._check(*(list(extra) + pref)):
+                    return self.solver.model()
+                acc = list(extra)
+                for p in pref:
+                    if self._check(*(acc + [p])):
+                        acc.append(p)
+                        m = self.solver.model()
+            except Inconclusive:
+                pass
+        return m
 
     def fail(self, label, case=None):
         """The real code misbehaved on this (feasible) path."""
         self.stats.inc('obligations')
-        m = self._ensure_model()
+        self._ensure_model()
+        if not self._check():
+            raise PathAbort()
+        m = self._small_model()
         self._record_cex(m, label, case)
         raise PathAbort()
 
@@ -269,6 +313,8 @@ class Engine(object):
         builder = case or self.case_builder
         c = builder(ev) if builder else {n: ev(t) for n, t in self.inputs}
         self.cex.append({'label': label, 'case': c})
+        if len(self.cex) >= self.max_cex:
+            raise StopExploration()
 
     def reachable(self):
         """Vacuity twin: `False` must be violated, i.e. the path is feasible."""
@@ -279,6 +325,9 @@ class Engine(object):
     def witness(self, case=None):
         """One concrete model of the current path (for replay on the real stack)."""
         m = self._ensure_model()
+        if self.prefer:
+            if self._check():
+                m = self._small_model()
         ev = ModelEval(m)
         builder = case or self.case_builder
         c = builder(ev) if builder else {n: ev(t) for n, t in self.inputs}
